@@ -38,24 +38,25 @@ type tnode struct {
 }
 
 type runner struct {
-	q       *Q
-	out     *vcommon.Writer
-	seen    map[string]bool
-	dedup   bool
-	chunk   int
-	nextID  int
-	states  int
-	reqs    int
-	skipped int
-	perKind map[string]int
-	errs    map[string]int
-	sample  *rand.Rand
-	maxPer  int // cap of requests per (state, kind); 0 = all
-	conc    int // free-running pass: number of goroutines re-issuing a seeded sample of the state's requests concurrently
-	concN   int // ... and the size of that sample
-	concReq int
-	wwalks  int
-	snap    *chainh.Snapshot
+	q          *Q
+	out        *vcommon.Writer
+	seen       map[string]bool
+	dedup      bool
+	chunk      int
+	nextID     int
+	states     int
+	reqs       int
+	skipped    int
+	perKind    map[string]int
+	errs       map[string]int
+	sample     *rand.Rand
+	maxPer     int // cap of requests per (state, kind); 0 = all
+	conc       int // free-running pass: number of goroutines re-issuing a seeded sample of the state's requests concurrently
+	concN      int // ... and the size of that sample
+	concReq    int
+	wwalks     int
+	wwRejected int
+	snap       *chainh.Snapshot
 }
 
 // concurrent re-issues a seeded sample of the requests of a state from several goroutines at once, each on its own
@@ -298,7 +299,10 @@ func (r *runner) wwalk(snap *chainh.Snapshot, path []chainh.Action, ww WWalk) er
 					return err
 				}
 				if !res.OK {
-					return fmt.Errorf("HARNESS: scheduled write %s rejected by the implementation: %s", act.Key(), res.Err)
+					// the write side deviates from the model (its conformance is C01-C08's subject): the walk goes on without
+					// this write and is judged on what really happened; the check reports the rejection as drift
+					r.wwRejected++
+					continue
 				}
 				cur = r.q.W.Dump(c2)
 			}
@@ -459,7 +463,7 @@ func Main(args []string) int {
 		kinds = append(kinds, k)
 	}
 	sort.Strings(kinds)
-	sum, _ := json.Marshal(M{"nodes": nnodes, "states_asked": r.states, "requests": r.reqs, "concurrent_requests": r.concReq, "walks_under_writes": r.wwalks, "kinds_skipped_unchanged": r.skipped,
+	sum, _ := json.Marshal(M{"nodes": nnodes, "states_asked": r.states, "requests": r.reqs, "concurrent_requests": r.concReq, "walks_under_writes": r.wwalks, "scheduled_writes_rejected": r.wwRejected, "kinds_skipped_unchanged": r.skipped,
 		"per_kind": r.perKind, "errors": r.errs, "lines": r.nextID, "wall_s": time.Since(t0).Seconds()})
 	fmt.Println(string(sum))
 	return 0
